@@ -569,7 +569,7 @@ def checkC03 := checkBlock "C03 (Hello answering an accepted Discover)" (fun _ t
 def checkC04 := checkBlock "C04 (Hello properties = interface attributes)" (fun _ t => holdsC04 t)
 def checkC05 := checkBlock "C05 (single mapper arbitration)" holdsC05F
 def checkC06 := checkBlock "C06 (Emit execution)" holdsC06
-def checkC07 := checkBlock "C07 (every observation reported once)" holdsC07
+def checkC07 := checkBlock "C07 (every observation reported once)" holdsC07F
 def checkC08 := checkBlock "C08 (large property retrieval)" holdsC08
 
 /-- C19: after every frame the ledger holds exactly the retained state the specification predicts -/
